@@ -372,3 +372,89 @@ func VerifC03RerunDrain() {
 	}
 	vquiesce()
 }
+
+// All-predecessor batch step in which a node n is reached by a plain edge from c and by a branch from b, b and c
+// finishing in either order: n runs once on both inputs, whatever the completion order.
+func VerifC03BranchJoinDAG() {
+	ctx := context.Background()
+	vcfg("preempt", 2)
+	counts := map[string]int{}
+	body := func(key string) *Lambda {
+		return InvokableLambda(func(ctx context.Context, in map[string]any) (map[string]any, error) {
+			vyield()
+			vMu.Lock()
+			counts[key]++
+			vMu.Unlock()
+			return map[string]any{key: vsymUF("f_"+key, vFold(in))}, nil
+		})
+	}
+	g := NewGraph[map[string]any, map[string]any]()
+	for _, k := range []string{"b", "c", "n", "m"} {
+		_ = g.AddLambdaNode(k, body(k))
+	}
+	_ = g.AddEdge(START, "b")
+	_ = g.AddEdge(START, "c")
+	_ = g.AddEdge("c", "n")
+	toN := vchoose("branch", 2) == 0
+	_ = g.AddBranch("b", NewGraphBranch(func(ctx context.Context, in map[string]any) (string, error) {
+		if toN {
+			return "n", nil
+		}
+		return "m", nil
+	}, map[string]bool{"n": true, "m": true}))
+	_ = g.AddEdge("n", END)
+	_ = g.AddEdge("m", END)
+	r, err := g.Compile(ctx, WithNodeTriggerMode(AllPredecessor))
+	vassert(err == nil, "graph compiles")
+	in := map[string]any{"in": vsymInt("x")}
+	out, rerr := r.Invoke(ctx, in)
+	vquiesce()
+	vassert(rerr == nil, "run succeeds under every completion order")
+	fb := map[string]any{"b": vsymUF("f_b", vFold(in))}
+	fc := map[string]any{"c": vsymUF("f_c", vFold(in))}
+	if toN {
+		both := map[string]any{"b": fb["b"], "c": fc["c"]}
+		want := map[string]any{"n": vsymUF("f_n", vFold(both))}
+		vassert(counts["n"] == 1 && counts["m"] == 0 && vMapEq(out, want), "n runs once on the merge of both predecessors, m is skipped, whatever the completion order")
+	} else {
+		want := map[string]any{"n": vsymUF("f_n", vFold(fc)), "m": vsymUF("f_m", vFold(fb))}
+		vassert(counts["n"] == 1 && counts["m"] == 1 && vMapEq(out, want), "n runs on c's output, m on b's, whatever the completion order")
+	}
+}
+
+// Eager mode: two independent lanes a -> a2 and b -> b2; a2 may only finish once b2 has started (and the other way
+// round in the mirrored case). Independent successors are started as soon as their predecessor finishes, so this
+// never hangs, whichever lane is ahead.
+func VerifC03EagerIndependence() {
+	ctx := context.Background()
+	vcfg("preempt", 1)
+	started := make(chan struct{})
+	waiter := []string{"a2", "b2"}[vchoose("waiter", 2)]
+	body := func(key string) *Lambda {
+		return InvokableLambda(func(ctx context.Context, in map[string]any) (map[string]any, error) {
+			if key == "a2" || key == "b2" {
+				if key == waiter {
+					<-started // released by the other lane's successor
+				} else {
+					close(started)
+				}
+			} else {
+				vyield()
+			}
+			return map[string]any{key: 1}, nil
+		})
+	}
+	wf := NewWorkflow[map[string]any, map[string]any]()
+	wf.AddLambdaNode("a", body("a")).AddInput(START)
+	wf.AddLambdaNode("b", body("b")).AddInput(START)
+	wf.AddLambdaNode("a2", body("a2")).AddInput("a")
+	wf.AddLambdaNode("b2", body("b2")).AddInput("b")
+	e := wf.End()
+	e.AddInput("a2", ToField("a2"))
+	e.AddInput("b2", ToField("b2"))
+	r, err := wf.Compile(ctx)
+	vassert(err == nil, "workflow compiles")
+	out, rerr := r.Invoke(ctx, map[string]any{"in": 1})
+	vquiesce()
+	vassert(rerr == nil && len(out) == 2, "the run completes: a successor of one lane never keeps the other lane from advancing")
+}
